@@ -199,15 +199,18 @@ def replay_text(case, why):
     return "\n".join(L) + "\n"
 
 
+def _inter(a, n, b, k):
+    return n > 0 and k > 0 and a < b + k and b < a + n
+
+
 def key_of(case, bufs_bad):
     """input class of a failing placement: function + which buffers overlap"""
-    S = _spec()
     ov = []
     names = list(case.spec["bufs"])
     for i, a in enumerate(names):
         for b in names[i + 1:]:
             if case.addr[a] is not None and case.addr[b] is not None and \
-               S.intersects(case.addr[a], case.size(a), case.addr[b], case.size(b)):
+               _inter(case.addr[a], case.size(a), case.addr[b], case.size(b)):
                 ov.append("%s~%s" % (a, b))
     return "%s:%s" % (case.fn, ",".join(ov) or "none")
 
